@@ -2,8 +2,7 @@ package main
 
 import (
 	"fmt"
-	"go/token"
-	"strings"
+	"go/types"
 
 	"golang.org/x/tools/go/ssa"
 )
@@ -11,321 +10,146 @@ import (
 func init() {
 	register(&propDef{
 		id: "C02", run: runC02, minOblig: 18,
-		explanation: "Decides the verify-before-release structure of every authenticated Open: (short input) chacha20poly1305.Open and xchacha20poly1305.Open reach the internal open only for len(ciphertext) >= 16, secretbox.Open / sign.Open / box.OpenAnonymous index the tag/overhead only behind len >= Overhead (evaluated); (tag gate) every path to a non-nil plaintext return crosses the success edge of the tag verification — Poly1305 MAC.Verify in the generic AEAD, the assembly routine's boolean in the amd64 AEAD, poly1305.Verify in secretbox, ed25519.Verify in sign — and box.Open*/XChaCha Open return the verdict of those functions verbatim; (nothing released on failure) on the failure edge both ChaCha20-Poly1305 implementations return (nil, errOpen) after a loop that stores zero into every element of exactly the output region the decryption writes (the same SSA value that is handed to the decrypting routine); in the generic AEAD and in secretbox/sign the plaintext-producing calls lie behind the success edge, so no decrypted byte exists before the tag is accepted; the verified bytes are the received ciphertext and tag (argument provenance). NOT decided: that a modified input actually changes the tag (Poly1305/Ed25519 algebra).",
-		assumptions: []string{"the amd64 assembly routine returns false iff the tag mismatches (not analysable here)"},
+		explanation: "Decides the verify-before-release behaviour of every authenticated Open by abstract interpretation from the EXPORTED entry points (every method of package chacha20poly1305 with the cipher.AEAD Open signature — the 12-byte-nonce and the 24-byte-nonce one must both exist, nonce length read off the sibling NonceSize method —, secretbox.Open, sign.Open, box.Open / OpenAfterPrecomputation / OpenAnonymous; helpers of the same package are interpreted in place, so the result does not depend on how the code is factored or how types, receivers, parameters and locals are named). Each Open is run for every input length of a boundary domain (around the overhead, the block sizes and every constant the code compares a length with), for an empty and a non-empty dst prefix, for a dst capacity that is too small / fits exactly / has spare room, and for BOTH outcomes of every content-dependent call (tag verification, overlap tests, the CPU-feature flag selecting assembly or generic code). Slices are (base, offset, length, capacity) regions; every byte is untouched, dirty (written by a decrypting routine — XORKeyStream, subtle.XORBytes, the fused assembly open — or by a data-dependent store) or zeroed. Read off every path: (short input) inputs shorter than the overhead return the failure value without reaching a verification, a slice expression out of range or a panic, longer inputs always reach a verification; (tag gate) a non-nil plaintext or a success indication is returned only when the verification — Poly1305 MAC.Verify / poly1305.Verify / a constant-time or bytes comparison against a tag computed by poly1305 Sum / the assembly routine's boolean / ed25519.Verify / the inner secretbox.Open modelled by its own checked contract — accepted; (nothing released on failure) on every rejecting exit no dirty byte remains in the caller's memory, both ChaCha20-Poly1305 implementations have overwritten exactly dst[len(dst):len(dst)+len(plaintext)] with zeros whenever that region lies in the caller's buffer, and no decrypting routine other than the fused assembly open writes caller memory before the tag is accepted; (failure value) rejected inputs yield (nil, non-nil error) resp. (nil, false); (what is verified) the bytes authenticated and the tag compared are exactly the received ciphertext, additional data and tag positions of the input parameter (region provenance through helpers, reslicing and copies into local arrays). NOT decided: that a modified input actually changes the tag (Poly1305/Ed25519 algebra); lengths outside the boundary domain are covered only through the constants harvested from the code.",
+		assumptions: []string{"the amd64 assembly routine returns false iff the tag mismatches and writes only dst[:len(src)] (not analysable here)"},
 	})
-	tech("C02", "must-cross CFG rules on the verification's success edge, failure-edge zeroing-loop shape with value identity of the wiped region, finite-domain evaluation of the length guards")
+	tech("C02", "path-walker interpretation of the exported Open functions with region/byte-state tracking over a boundary domain of lengths, capacities and verification outcomes")
+}
+
+func c02IsByteSlice(t types.Type) bool {
+	s, ok := t.Underlying().(*types.Slice)
+	if !ok {
+		return false
+	}
+	b, ok := s.Elem().Underlying().(*types.Basic)
+	return ok && b.Kind() == types.Byte
+}
+
+// c02IsAEADOpen: the cipher.AEAD Open signature.
+func c02IsAEADOpen(f *ssa.Function) bool {
+	sig := f.Signature
+	if sig.Params().Len() != 4 || sig.Results().Len() != 2 {
+		return false
+	}
+	for i := 0; i < 4; i++ {
+		if !c02IsByteSlice(sig.Params().At(i).Type()) {
+			return false
+		}
+	}
+	return c02IsByteSlice(sig.Results().At(0).Type()) && c02IsErrorType(sig.Results().At(1).Type())
+}
+
+// c02NonceSize: the constant returned by the NonceSize method of Open's receiver type.
+func c02NonceSize(c *Ctx, pkg string, open *ssa.Function) (int64, bool) {
+	for _, g := range c.funcsOfPkg(pkg) {
+		if g.Name() != "NonceSize" || g.Signature.Recv() == nil || len(g.Blocks) == 0 {
+			continue
+		}
+		deref := func(t types.Type) types.Type {
+			if p, ok := t.(*types.Pointer); ok {
+				return p.Elem()
+			}
+			return t
+		}
+		if !types.Identical(deref(g.Signature.Recv().Type()), deref(open.Signature.Recv().Type())) {
+			continue
+		}
+		var val int64
+		n := 0
+		for _, r := range returnsOf(g) {
+			if len(r.Results) == 1 {
+				if k, ok := constInt(r.Results[0]); ok {
+					val = k
+					n++
+					continue
+				}
+			}
+			return 0, false
+		}
+		return val, n >= 1
+	}
+	return 0, false
 }
 
 func runC02(c *Ctx) {
 	const cp = "chacha20poly1305"
-	// ---- short-input guards of the exported AEAD methods
-	for _, name := range []string{"(*chacha20poly1305).Open", "(*xchacha20poly1305).Open"} {
-		f := c.fn(cp, name)
-		if f == nil {
+	aeadTag := func(in int) func(cs c02Case) (c02Span, bool) {
+		return func(cs c02Case) (c02Span, bool) { return c02Span{fmt.Sprintf("p%d", in), cs.n - 16, 16}, true }
+	}
+	aeadData := func(in, ad int) func(cs c02Case) []c02Span {
+		return func(cs c02Case) []c02Span {
+			return []c02Span{{fmt.Sprintf("p%d", ad), 0, cs.a}, {fmt.Sprintf("p%d", in), 0, cs.n - 16}}
+		}
+	}
+	prefixTag := func(in int, k int64) func(cs c02Case) (c02Span, bool) {
+		return func(cs c02Case) (c02Span, bool) { return c02Span{fmt.Sprintf("p%d", in), 0, k}, true }
+	}
+	suffixData := func(in int, k int64) func(cs c02Case) []c02Span {
+		return func(cs c02Case) []c02Span { return []c02Span{{fmt.Sprintf("p%d", in), k, cs.n - k}} }
+	}
+	noTag := func(cs c02Case) (c02Span, bool) { return c02Span{}, false }
+	var roots []*c02Root
+	// cipher.AEAD: Open(dst, nonce, ciphertext, additionalData) on a pointer receiver
+	// (found by signature — every method Open(dst, nonce, ciphertext, ad []byte) ([]byte, error) of the
+	// package — with the nonce length read off the sibling NonceSize method, not by type name)
+	naead := 0
+	nonces := map[int64]bool{}
+	for _, f := range c.funcsOfPkg(cp) {
+		if f.Name() != "Open" || f.Signature.Recv() == nil || len(f.Blocks) == 0 || !c02IsAEADOpen(f) {
 			continue
 		}
-		inner := callsNamed(f, "(*chacha20poly1305.chacha20poly1305).open")
-		ct := param(f, "ciphertext")
-		bad := ""
-		if len(inner) != 1 || ct == nil {
-			bad = "internal open call or ciphertext parameter not found"
-		} else {
-			for _, n := range []int64{0, 1, 15, 16, 17, 100} {
-				e := newEnv()
-				e.bindLen(f, ct, n)
-				e.bindLen(f, param(f, "nonce"), map[bool]int64{true: 24, false: 12}[strings.Contains(name, "xchacha")])
-				e.solve(f)
-				if e.reach[inner[0].Block()] != (n >= 16) {
-					bad = fmt.Sprintf("ciphertext of %d bytes: internal open reached=%v", n, e.reach[inner[0].Block()])
-				}
-			}
-			// verdict returned verbatim
-			okV := false
-			for _, r := range returnsOf(f) {
-				if ex, ok := retVal(r, 1).(*ssa.Extract); ok && ex.Tuple == callValue(inner[0]) {
-					okV = true
-				}
-			}
-			if !okV {
-				bad = "the internal open's error is not returned"
-			}
-			if inner[0].Common().Args[3] != ssa.Value(ct) {
-				bad = "the internal open is not given the received ciphertext"
-			}
-		}
-		c.check(bad == "", "C02.short-input", cp+"."+name, f, "inputs shorter than the tag are rejected before any slicing; the inner verdict is returned", bad)
-	}
-	// ---- the two internal opens
-	for _, name := range []string{"(*chacha20poly1305).openGeneric", "(*chacha20poly1305).open"} {
-		if c.cfg != "" && name == "(*chacha20poly1305).open" {
-			// build configurations without the amd64 assembly: open is a one-line
-			// wrapper returning openGeneric's verdict (checked as a delegation)
-			if f := c.fn(cp, name); f != nil {
-				cs := calls(f, func(n string) bool { return strings.HasSuffix(n, "chacha20poly1305).openGeneric") })
-				ok := len(cs) == 1 && len(f.Blocks) == 1
-				if ok {
-					for _, r := range returnsOf(f) {
-						for i := range r.Results {
-							ex, isE := retVal(r, i).(*ssa.Extract)
-							if !isE || ex.Tuple != callValue(cs[0]) || ex.Index != i {
-								ok = false
-							}
-						}
-					}
-				}
-				c.check(ok, "C02.tag-gate", cp+"."+name+" (portable build)", f, "returns openGeneric's result verbatim", "the portable open does not return openGeneric's verdict verbatim")
-			}
+		nl, ok := c02NonceSize(c, cp, f)
+		if !ok {
+			c.fail("anchor", cp+"."+fnName(f), f, "the NonceSize method of this AEAD does not return a constant; the rule cannot be evaluated")
 			continue
 		}
-		f := c.fn(cp, name)
-		if f == nil {
-			continue
+		naead++
+		nonces[nl] = true
+		if c.funcsSeen == nil {
+			c.funcsSeen = map[string]bool{}
 		}
-		acc := valueReturns(f, 0)
-		var ver []ssa.CallInstruction
-		ver = append(ver, calls(f, func(n string) bool { return strings.HasSuffix(n, "internal/poly1305.MAC).Verify") })...)
-		ver = append(ver, callsNamed(f, "chacha20poly1305.chacha20Poly1305Open")...)
-		pass := callSuccess(ver, 0, isTrue)
-		fail := callFailure(ver, 0, isTrue)
-		// returns that forward the generic implementation's result are conditional on it
-		var direct []ssa.Instruction
-		for _, t := range acc {
-			r := t.(*ssa.Return)
-			if ex, ok := retVal(r, 0).(*ssa.Extract); ok {
-				if call, ok := ex.Tuple.(*ssa.Call); ok && strings.HasSuffix(calleeName(&call.Call), ".openGeneric") {
-					continue
-				}
-			}
-			direct = append(direct, t)
-		}
-		c.mustCross("C02.tag-gate", cp+"."+name, f, direct, pass, "the tag verification's success edge")
-		// failure edge: zeroing loop over the decryption's output region, then (nil, errOpen)
-		if len(ver) == 1 && len(fail) > 0 {
-			// output region: the value handed to the decrypting routine
-			var outV ssa.Value
-			if strings.HasSuffix(calleeName(ver[0].Common()), "chacha20Poly1305Open") {
-				outV = ver[0].Common().Args[0]
-			} else {
-				for _, ci := range calls(f, func(n string) bool { return strings.HasSuffix(n, ").XORKeyStream") }) {
-					a := ci.Common().Args
-					if _, isEx := rootOf(a[1]).(*ssa.Extract); isEx {
-						outV = a[1]
-					}
-				}
-			}
-			okZero := outV != nil
-			var wipeAt *ssa.BasicBlock
-			detail := "decryption output region not found"
-			if okZero {
-				okZero = false
-				detail = "on authentication failure the output region is not wiped (a store of 0 into every element of exactly the decryption's output slice)"
-				r := reach([]*ssa.BasicBlock{fail[0].to()}, nil)
-				allInstrs(f, func(in ssa.Instruction) {
-					st, ok := in.(*ssa.Store)
-					if !ok || !r[st.Block()] {
-						return
-					}
-					ia, ok := st.Addr.(*ssa.IndexAddr)
-					if !ok {
-						return
-					}
-					if k, isC := constInt(st.Val); !isC || k != 0 {
-						return
-					}
-					if ia.X != outV {
-						detail = "the wipe after a failed authentication clears a different slice than the one the decryption wrote (unauthenticated plaintext can remain in the caller's buffer)"
-						return
-					}
-					// index runs 0..len(out)-1: phi index with +1 step bounded by len(outV)
-					bound := false
-					allInstrs(f, func(in2 ssa.Instruction) {
-						if call, ok := in2.(*ssa.Call); ok && calleeName(&call.Call) == "builtin:len" && call.Call.Args[0] == outV {
-							bound = true
-						}
-					})
-					if bound {
-						okZero = true
-						wipeAt = innermostLoopHeader(st.Block())
-					}
-				})
-				// clear(out) builtin form
-				for _, ci := range calls(f, nameIs("builtin:clear")) {
-					if ci.Common().Args[0] == outV && r[ci.Block()] {
-						okZero = true
-						wipeAt = ci.Block()
-					}
-				}
-				// the wipe is unconditional: no path from the failure edge to a return
-				// goes around the zeroing loop (its header) / the clear call
-				if okZero && wipeAt != nil && fail[0].to() != wipeAt {
-					ra := reachAvoiding([]*ssa.BasicBlock{fail[0].to()}, nil, map[*ssa.BasicBlock]bool{wipeAt: true})
-					for _, ret := range returnsOf(f) {
-						if ra[ret.Block()] {
-							okZero = false
-							detail = "the wipe of the output region after a failed authentication is conditional: a path from the failure edge to the return goes around it, leaving unauthenticated plaintext in the caller's buffer"
-						}
-					}
-				}
-			}
-			c.check(okZero, "C02.wipe-on-failure", cp+"."+name, f, "the decryption's output region is zeroed before errOpen is returned", detail)
-			// failure returns nil, errOpen
-			okRet := true
-			rr := reach([]*ssa.BasicBlock{fail[0].to()}, nil)
-			n := 0
-			for _, ret := range returnsOf(f) {
-				if !rr[ret.Block()] {
-					continue
-				}
-				// only returns not reachable from the success edge
-				if reach([]*ssa.BasicBlock{pass[0].to()}, nil)[ret.Block()] {
-					continue
-				}
-				n++
-				if !isNilConst(retVal(ret, 0)) || accessPath(retVal(ret, 1)) != "errOpen" {
-					okRet = false
-				}
-			}
-			c.check(okRet && n >= 1, "C02.fail-result", cp+"."+name, f, "a rejected input yields (nil, errOpen)", "authentication failure does not return (nil, errOpen)")
-		} else {
-			c.fail("C02.wipe-on-failure", cp+"."+name, f, "tag verification call not found")
-		}
+		c.funcsSeen[cp+"."+fnName(f)] = true
+		roots = append(roots, &c02Root{pkg: cp, name: fnName(f), f: f, out: 1, nonce: 2, in: 3, ad: 4, nonceLen: nl, over: 16, aead: true,
+			wantTag: aeadTag(3), wantData: aeadData(3, 4),
+			sourceOK: "the MAC covers the received additional data and ciphertext[:len-16], the tag compared is ciphertext[len-16:]",
+			src:      "the tag verified is not the trailing 16 bytes of the received ciphertext / the MAC input is not the received data"})
 	}
-	if f := c.fn(cp, "(*chacha20poly1305).openGeneric"); f != nil {
-		// no plaintext before the tag is accepted: XORKeyStream into out behind Verify
-		ver := calls(f, func(n string) bool { return strings.HasSuffix(n, "internal/poly1305.MAC).Verify") })
-		var dec []ssa.Instruction
-		for _, ci := range calls(f, func(n string) bool { return strings.HasSuffix(n, ").XORKeyStream") }) {
-			if _, isEx := rootOf(ci.Common().Args[1]).(*ssa.Extract); isEx {
-				dec = append(dec, ci)
-			}
-		}
-		c.mustCross("C02.decrypt-after-verify", cp+".(*chacha20poly1305).openGeneric", f, dec, callSuccess(ver, 0, isTrue), "MAC.Verify(tag) == true")
-		// tag verified = last 16 bytes of the received ciphertext; MAC over the rest
-		okTag := false
-		if len(ver) == 1 {
-			if sl, ok := ver[0].Common().Args[1].(*ssa.Slice); ok && rootOf(sl) == ssa.Value(param(f, "ciphertext")) && sl.Low != nil {
-				if sub, ok := sl.Low.(*ssa.BinOp); ok && sub.Op == token.SUB {
-					if k, ok := constInt(sub.Y); ok && k == 16 {
-						okTag = true
-					}
-				}
-			}
-		}
-		c.check(okTag, "C02.tag-source", cp+".openGeneric", f, "the tag checked is the last 16 bytes of the input", "the tag verified is not the trailing 16 bytes of the received ciphertext")
+	if !nonces[12] || !nonces[24] {
+		c.fail("anchor", cp+" AEAD Open methods", nil, fmt.Sprintf("expected the Open methods of ChaCha20-Poly1305 (12-byte nonce) and XChaCha20-Poly1305 (24-byte nonce); found %d AEAD Open method(s)", naead))
 	}
-	// ---- secretbox
-	if f := c.fn("nacl/secretbox", "Open"); f != nil {
-		acc := valueReturns(f, 0)
-		ver := callsNamed(f, "internal/poly1305.Verify")
-		c.mustCross("C02.tag-gate", "secretbox.Open", f, acc, callSuccess(ver, 0, isTrue), "poly1305.Verify == true")
-		var dec []ssa.Instruction
-		for _, ci := range callsNamed(f, "salsa20/salsa.XORKeyStream") {
-			if _, isEx := rootOf(ci.Common().Args[0]).(*ssa.Extract); isEx {
-				dec = append(dec, ci)
-			}
-		}
-		allInstrs(f, func(in ssa.Instruction) {
-			if st, ok := in.(*ssa.Store); ok {
-				if ia, ok := st.Addr.(*ssa.IndexAddr); ok {
-					if _, isEx := rootOf(ia.X).(*ssa.Extract); isEx {
-						dec = append(dec, st)
-					}
-				}
-			}
-		})
-		c.mustCross("C02.decrypt-after-verify", "secretbox.Open", f, dec, callSuccess(ver, 0, isTrue), "poly1305.Verify == true")
-		c02Short(c, f, "secretbox.Open", param(f, "box"), 16, ver)
-		// verified bytes: tag = box[:16] (copy), message = box[16:]
-		okSrc := false
-		if len(ver) == 1 {
-			if sl, ok := ver[0].Common().Args[1].(*ssa.Slice); ok && rootOf(sl) == ssa.Value(param(f, "box")) && sl.Low != nil {
-				if k, ok := constInt(sl.Low); ok && k == 16 {
-					okSrc = true
-				}
-			}
-		}
-		c.check(okSrc, "C02.tag-source", "secretbox.Open", f, "the MAC covers box[16:]", "the MAC is not verified over the received ciphertext box[16:]")
+	roots = append(roots, &c02Root{pkg: "nacl/secretbox", name: "Open", out: 0, in: 1, ad: -1, nonce: -1, over: 16,
+		wantTag: prefixTag(1, 16), wantData: suffixData(1, 16),
+		sourceOK: "the MAC covers box[16:], the tag compared is box[:16]",
+		src:      "the MAC is not verified over the received ciphertext box[16:] against box[:16]"})
+	roots = append(roots, &c02Root{pkg: "nacl/sign", name: "Open", out: 0, in: 1, ad: -1, nonce: -1, over: 64,
+		wantTag: prefixTag(1, 64), wantData: suffixData(1, 64),
+		sourceOK: "signature = first 64 bytes, message = the rest",
+		src:      "the signature/message split verified is not signedMessage[:64] / signedMessage[64:]"})
+	for _, name := range []string{"Open", "OpenAfterPrecomputation"} {
+		roots = append(roots, &c02Root{pkg: "nacl/box", name: name, out: 0, in: 1, ad: -1, nonce: -1, over: 16,
+			wantTag: noTag, wantData: suffixData(1, 0),
+			sourceOK: "the authenticated opener receives the whole box",
+			src:      "box." + name + " does not hand the received box to the authenticated opener"})
 	}
-	if f := c.fn("nacl/sign", "Open"); f != nil {
-		acc := valueReturns(f, 0)
-		ver := callsNamed(f, "crypto/ed25519.Verify")
-		c.mustCross("C02.tag-gate", "sign.Open", f, acc, callSuccess(ver, 0, isTrue), "ed25519.Verify == true")
-		c02Short(c, f, "sign.Open", param(f, "signedMessage"), 64, ver)
-		okSrc := false
-		if len(ver) == 1 {
-			m, isM := ver[0].Common().Args[1].(*ssa.Slice)
-			s, isS := ver[0].Common().Args[2].(*ssa.Slice)
-			if isM && isS && rootOf(m) == ssa.Value(param(f, "signedMessage")) && rootOf(s) == ssa.Value(param(f, "signedMessage")) {
-				lo, _ := constInt(m.Low)
-				hi, _ := constInt(s.High)
-				okSrc = m.Low != nil && lo == 64 && s.High != nil && hi == 64
-			}
-		}
-		c.check(okSrc, "C02.tag-source", "sign.Open", f, "signature = first 64 bytes, message = the rest", "the signature/message split verified is not signedMessage[:64] / signedMessage[64:]")
-	}
-	// ---- box wrappers return secretbox's verdict verbatim
-	for _, name := range []string{"Open", "OpenAfterPrecomputation", "OpenAnonymous"} {
-		f := c.fn("nacl/box", name)
-		if f == nil {
-			continue
-		}
-		ok := true
-		n := 0
-		for _, r := range returnsOf(f) {
-			v := retVal(r, 0)
-			if isNilConst(v) {
-				continue
-			}
-			n++
-			ex, isE := v.(*ssa.Extract)
-			if !isE {
-				ok = false
-				continue
-			}
-			call, isC := ex.Tuple.(*ssa.Call)
-			if !isC || !(strings.HasSuffix(calleeName(&call.Call), "secretbox.Open") || strings.HasSuffix(calleeName(&call.Call), "box.Open")) {
-				ok = false
-			}
-			if ex2, isE2 := retVal(r, 1).(*ssa.Extract); !isE2 || ex2.Tuple != ex.Tuple {
-				ok = false
-			}
-		}
-		c.check(ok && n >= 1, "C02.tag-gate", "box."+name, f, "returns the authenticated opener's result and verdict verbatim", "box."+name+" can return plaintext that did not come from the authenticated opener")
-	}
-	if f := c.fn("nacl/box", "OpenAnonymous"); f != nil {
-		over, _ := pkgConstInt(c, "nacl/box", "AnonymousOverhead")
-		inner := callsNamed(f, "nacl/box.Open")
-		bad := ""
-		if len(inner) != 1 {
-			bad = "inner Open not found"
-		} else {
-			for _, n := range []int64{0, 31, over - 1, over, over + 1} {
-				e := newEnv()
-				e.bindLen(f, param(f, "box"), n)
-				e.solve(f)
-				if e.reach[inner[0].Block()] && n < over {
-					bad = fmt.Sprintf("box of %d bytes (overhead %d) reaches slicing", n, over)
-				}
-			}
-		}
-		c.check(bad == "", "C02.short-input", "box.OpenAnonymous", f, "boxes shorter than the anonymous overhead are rejected before slicing", bad)
-	}
-}
-
-func c02Short(c *Ctx, f *ssa.Function, name string, in *ssa.Parameter, over int64, ver []ssa.CallInstruction) {
-	bad := ""
-	if in == nil || len(ver) != 1 {
-		bad = "input parameter or verification call not found"
+	if over, ok := pkgConstInt(c, "nacl/box", "AnonymousOverhead"); ok {
+		roots = append(roots, &c02Root{pkg: "nacl/box", name: "OpenAnonymous", out: 0, in: 1, ad: -1, nonce: -1, over: over,
+			wantTag: noTag, wantData: suffixData(1, over-16),
+			sourceOK: "the authenticated opener receives the box without the ephemeral public key",
+			src:      "box.OpenAnonymous does not hand box[32:] to the authenticated opener"})
 	} else {
-		for _, n := range []int64{0, 1, over - 1, over, over + 1} {
-			e := newEnv()
-			e.bindLen(f, in, n)
-			e.solve(f)
-			if e.reach[ver[0].Block()] != (n >= over) {
-				bad = fmt.Sprintf("input of %d bytes (overhead %d): verification/slicing reached=%v", n, over, e.reach[ver[0].Block()])
-			}
-		}
+		c.fail("anchor", "nacl/box.AnonymousOverhead", nil, "constant not found in the current tree; the rule cannot be evaluated")
 	}
-	c.check(bad == "", "C02.short-input", name, f, fmt.Sprintf("inputs shorter than %d bytes are rejected before any slicing", over), bad)
+	for _, r := range roots {
+		if r.f == nil {
+			r.f = c.fn(r.pkg, r.name)
+		}
+		if r.f == nil {
+			continue
+		}
+		if len(r.f.Params) <= max(r.out, r.in, r.ad, r.nonce) || len(r.f.Blocks) == 0 {
+			c.fail("anchor", r.pkg+"."+r.name, r.f, "the exported Open does not have the expected signature")
+			continue
+		}
+		r.check(c)
+	}
 }
